@@ -10,7 +10,7 @@ from vf.shrink import shrink_list
 CFGS = [(3, 360), (5, 600), (8, 960), (R.REAL_PERIOD, R.REAL_TIMESPAN)]
 
 
-def gen_deep(rnd, halving=False):
+def gen_deep(rnd, halving=False, vlq_edge=False):
     """parameters of a fabricated deep base just below a REAL retarget boundary (period 10,080), or -- halving=True --
     just below a subsidy halving (1,050,000 * k)"""
     k = rnd.choice([17, 17, 20, 100, 400])
@@ -18,6 +18,9 @@ def gen_deep(rnd, halving=False):
     H = R.REAL_PERIOD * k - below
     if halving:
         H = R.HALVING * rnd.choice([1, 1, 2, 3, 29, 30, 31, 63, 64]) - rnd.choice([1, 1, 2, 3])
+    if vlq_edge:
+        # heights whose deployed encoding carries a leading 0x80 octet (bit length a multiple of 7)
+        H = rnd.choice([rnd.randrange(64, 120), rnd.randrange(8192, 16000), rnd.randrange(1 << 20, (1 << 21) - 20)])
     tip_ts = 1_700_000_000 + rnd.randrange(0, 10 ** 6)
     f = rnd.choice([0.25, 0.5, 1.0, 1.0, 2.0, 4.0, 16.0])
     texp = rnd.choice([250, 252, 254, 254])
@@ -60,6 +63,11 @@ def gen_case(rnd, cfg, n_blocks, p_mut, cats, deep=None, **opts):
                 ops.append(mop)
                 if rnd.random() < 0.5:
                     continue                  # only the broken candidate is offered for this slot
+        if deep is not None and deep.get("vlq_edge") and rnd.random() < 0.5:
+            import copy
+            sop = copy.deepcopy(op)
+            sop.update(mut="C05:short_height_encoding", raw_edit="short_height", form="bytes")
+            ops.append(sop)                         # the same block, its height written without the leading 0x80 octet
         op["form"] = "bytes" if rnd.random() < 0.3 else "obj"
         ops.append(op)
         gen.commit(op, fees)
@@ -125,6 +133,26 @@ class Run:
             tag = op.get("mut")
             form = op.get("form", "obj")
             skb = None
+            if op.get("raw_edit") == "short_height":
+                canon = R.vlq(blk.height)
+                raw = blk.raw()
+                if canon[0] != 0x80:
+                    self.stat("raw_edit_not_applicable")
+                    continue
+                alt = raw[:1] + canon[1:] + raw[1 + len(canon):]
+                self.stat("candidates")
+                self.stat("mut:" + tag)
+                try:
+                    skb = self.Block.deserialize(alt)
+                    cs_alt = self.cs.add_block(skb, now)
+                except Exception:
+                    self.stat("rejected")
+                    continue
+                if set(self.focus) & {"C05", "C07"}:
+                    self.fail("accepted_invalid", "accepted:C05:non-canonical-height-encoding",
+                              "a block whose height is written in a non-deployed (shorter) form was accepted under id %s; the id of its canonical header is %s, target %s" % (
+                                  skb.hash().hex()[:16], blk.id().hex()[:16], blk.target.hex()[:8]))
+                continue
             if form == "bytes":
                 try:
                     skb = self.Block.deserialize(blk.raw())
@@ -169,6 +197,9 @@ class Run:
                     else:
                         self.stat("other_property_disagreement")
                     continue                                   # never adopt a state the reference refuses
+                if "C05" in self.focus and (skb.hash() != blk.id() or not skb.hash() < blk.target):
+                    self.fail("accepted_invalid", "accepted:C05:reported-id-not-below-target", "accepted block %s is known under id %s (canonical header id %s, target %s)" % (
+                        op["label"], skb.hash().hex()[:16], blk.id().hex()[:16], blk.target.hex()[:8]))
                 node = self.world.accept(op["label"], blk)
                 got = b.sk_utxo_plain(cs2, node.id)
                 if got != node.utxo:
@@ -226,7 +257,7 @@ def shrink_case(case, focus, sig, budget_s):
     return dict(case, ops=ops)
 
 
-def drive(res, seed_, n_hist, tier, focus, cats, pid, n_blocks=(6, 14), p_mut=0.4, p_deep=0.0, deep_halving=False, **opts):
+def drive(res, seed_, n_hist, tier, focus, cats, pid, n_blocks=(6, 14), p_mut=0.4, p_deep=0.0, deep_halving=False, deep_vlq_edge=0.0, **opts):
     """Hypothesis is the generator engine; failures are collected (bucketed by signature) and shrunk afterwards."""
     found = {}
 
@@ -236,7 +267,13 @@ def drive(res, seed_, n_hist, tier, focus, cats, pid, n_blocks=(6, 14), p_mut=0.
     @given(st.randoms(use_true_random=True), st.sampled_from(CFGS[:3] + CFGS[:3] + CFGS[3:]), st.integers(*n_blocks))
     def prop(rnd, cfg, nb):
         if p_deep and rnd.random() < p_deep:
-            case = gen_case(rnd, CFGS[3], min(nb, 8), p_mut, cats, deep=gen_deep(rnd, halving=deep_halving), **opts)
+            dd = gen_deep(rnd, halving=deep_halving, vlq_edge=rnd.random() < deep_vlq_edge)
+            if dd["H"] < 10_000 or (dd["H"] % R.REAL_PERIOD) > R.REAL_PERIOD - 20:
+                pass
+            if deep_vlq_edge and (dd["H"] < 64 + 60 or 8192 <= dd["H"] < 16384 or (1 << 20) <= dd["H"] < (1 << 21)):
+                dd["vlq_edge"] = True
+                dd["special"] = {str((dd["H"] // R.REAL_PERIOD) * R.REAL_PERIOD - (R.REAL_PERIOD if (dd["H"] // R.REAL_PERIOD) else 0)): dd["tip_ts"] - R.REAL_TIMESPAN}
+            case = gen_case(rnd, CFGS[3], min(nb, 8), p_mut, cats, deep=dd, **opts)
             res.count("deep_histories")
         else:
             case = gen_case(rnd, cfg, nb, p_mut, cats, **opts)
